@@ -77,11 +77,21 @@ def k1_tweaked(d, tweak):
 class V1World:
     """Keys, messages and tweaks of one seeded version-1 universe."""
 
-    def __init__(self, label="v1"):
+    def __init__(self, label="v1", zero=None):
+        """zero: None, "x" or "y": every public key of the world has a leading zero byte in that
+        coordinate (found by search)."""
         rng = Rng("certs-" + label)
+        self.label = label
         self.priv = {}
         for who in V1_NAMES + ("root", "stranger", "stranger2"):
-            self.priv[who] = int.from_bytes(rng.bytes(32), "big") % (N_K1 - 1) + 1
+            while True:
+                d = int.from_bytes(rng.bytes(32), "big") % (N_K1 - 1) + 1
+                pub = k1_pub(d)
+                if zero is None or (zero == "x" and pub[1] == 0) or (zero == "y" and pub[33] == 0):
+                    break
+            self.priv[who] = d
+        self._zero_tweaks = {}
+        self._found = {}
         self.tweak = {n: rng.bytes(32) for n in V1_NAMES}
         self.prefix = rng.bytes(8)
         self.leafmsg = {
@@ -104,6 +114,45 @@ class V1World:
         if certifies:
             return pub
         return self.leafmsg[name]
+
+    # ---- derived values with leading zero bytes, found by search (cached) ------------------------
+    def zero_tweak(self, signer, nzeros=1):
+        """A tweak whose HMAC-SHA256(tweak, uncompressed key of `signer`) starts with `nzeros` zero
+        bytes (the tweak scalar is then shorter than 32 bytes as an integer)."""
+        k = (signer, nzeros)
+        t = self._zero_tweaks.get(k)
+        if t is None:
+            pub = self.pub(signer)
+            i = 0
+            while True:
+                t = hashlib.sha256(("%s|zero-tweak|%s|%d" % (self.label, signer, i)).encode()).digest()
+                if hmac.digest(t, pub, "sha256")[:nzeros] == bytes(nzeros):
+                    break
+                i += 1
+            self._zero_tweaks[k] = t
+        return t
+
+    def searched_message(self, name, signer, tweak, what, make):
+        """First message make(i), i = 0.., whose derived value has a leading zero byte:
+        what = "r" / "s" (of the deterministic signature by `signer`) or "digest" (SHA-256 of the
+        message).  -> message or None when 2000 tries do not find one."""
+        k = (name, signer, tweak, what)
+        if k in self._found:
+            return self._found[k]
+        from ..refs.certref import der_sig_parse
+        found = None
+        for i in range(2000):
+            m = make(i)
+            if what == "digest":
+                ok = hashlib.sha256(m).digest()[0] == 0
+            else:
+                r, s_, _ = der_sig_parse(self.sign(signer, tweak, m))
+                ok = (r if what == "r" else s_) < (1 << 248)
+            if ok:
+                found = m
+                break
+        self._found[k] = found
+        return found
 
     def sign(self, signer, tweak, message):
         """signer: a key name; tweak: bytes or None."""
@@ -233,8 +282,19 @@ class V2World:
         from cryptography.hazmat.primitives.asymmetric import ec
         k = self._keys.get((name, curve))
         if k is None:
-            d = int.from_bytes(Rng("%s-key-%s-%s" % (self.label, name, curve)).bytes(31), "big") | 1
-            k = ec.derive_private_key(d, _curve(curve))
+            from cryptography.hazmat.primitives.serialization import Encoding, PublicFormat
+            # names ending in "@x0" / "@y0": a key whose public X / Y coordinate starts with a zero byte
+            want = name[-3:] if name.endswith(("@x0", "@y0")) else None
+            rng = Rng("%s-key-%s-%s" % (self.label, name, curve))
+            while True:
+                d = int.from_bytes(rng.bytes(31), "big") | 1
+                k = ec.derive_private_key(d, _curve(curve))
+                if want is None:
+                    break
+                u = k.public_key().public_bytes(Encoding.X962, PublicFormat.UncompressedPoint)
+                half = (len(u) - 1) // 2
+                if u[1 if want == "@x0" else 1 + half] == 0:
+                    break
             self._keys[(name, curve)] = k
         return k
 
@@ -367,6 +427,144 @@ class V2World:
         doc = {"version": 2, "targets": ["quote"],
                "elements": [quote, att] + list(reversed(els))}
         return doc, pem_of(root_der), {"x509": meta, "root_der": root_der}
+
+
+def zero_value_docs(w):
+    """Genuine version-2 chains in which a DERIVED value has a leading zero byte (found by search):
+    X / Y of the attestation key and of the leaf certificate's key, the two binding hashes, the
+    digest of each signed message, r and s of each signature.  -> list of (label, doc)."""
+    from ..refs.certref import der_sig_parse
+    day = timedelta(days=1)
+    base, _, meta = w.chain(2, "wide-top")
+    out = []
+
+    def with_(*els):
+        d = clone(base)
+        for ne in els:
+            for i, e in enumerate(d["elements"]):
+                if e["name"] == ne["name"]:
+                    d["elements"][i] = ne
+        return d
+
+    def search(make, test, tries=3000):
+        for i in range(tries):
+            x = make(i)
+            if test(x):
+                return x
+        return None
+
+    def short(el, which):
+        r, s_, _ = der_sig_parse(bytes.fromhex(el["signature"]))
+        return (r if which == "r" else s_) < (1 << 248)
+
+    leaf = "quoting_enclave"
+    # public key coordinates
+    for c in ("@x0", "@y0"):
+        att = w.att_element("attestation", leaf, leaf, key_name="attkey" + c)
+        out.append(("zero:attestation-key" + c, with_(att, w.quote_element("quote", "attestation", "attkey" + c))))
+        nb, na = meta["x509"][-1][1], meta["x509"][-1][2]
+        cert = w.x509_element(leaf, "platform_ca", w.cert(leaf, "platform_ca", nb, na, subject_key=leaf + c))
+        out.append(("zero:leaf-key" + c, with_(cert, w.att_element("attestation", leaf, leaf + c))))
+    # binding hashes
+    raw = w.point("attkey", fmt="raw")
+    auth = search(lambda i: b"auth" + i.to_bytes(2, "big"), lambda a: hashlib.sha256(raw + a).digest()[0] == 0)
+    out.append(("zero:binding-attestation-key", with_(w.att_element("attestation", leaf, leaf, auth=auth))))
+    custom = search(lambda i: b"POWHSM:5.4::sgx" + bytes(110) + i.to_bytes(2, "big"),
+                    lambda c: hashlib.sha256(c).digest()[0] == 0)
+    out.append(("zero:binding-quote", with_(w.quote_element("quote", "attestation", "attkey", custom=custom))))
+    # quote: digest of the signed message, r, s  (free field: qe_svn)
+    for what in ("digest", "r", "s"):
+        q = search(lambda i: w.quote_element("quote", "attestation", "attkey", ints={(8, 2): i}),
+                   (lambda e: hashlib.sha256(bytes.fromhex(e["message"])).digest()[0] == 0) if what == "digest"
+                   else (lambda e, _w=what: short(e, _w)))
+        if q is not None:
+            out.append(("zero:quote-" + what, with_(q)))
+        a = search(lambda i: w.att_element("attestation", leaf, leaf, auth=b"A" + i.to_bytes(2, "big")),
+                   (lambda e: hashlib.sha256(bytes.fromhex(e["message"])).digest()[0] == 0) if what == "digest"
+                   else (lambda e, _w=what: short(e, _w)))
+        if a is not None:
+            out.append(("zero:attestation-" + what, with_(a)))
+    # certificates: r, s of the issuer's signature (free field: the issuer's common name)
+    from ..refs.certref import X509View
+    nb, na = meta["x509"][-1][1], meta["x509"][-1][2]
+    for what in ("r", "s"):
+        der = search(lambda i: w.cert(leaf, "platform_ca", nb, na, issuer_cn="platform_ca #%d" % i),
+                     lambda c, _w=what: short({"signature": X509View(c).signature.hex()}, _w), tries=1500)
+        if der is not None:
+            out.append(("zero:certificate-" + what, with_(w.x509_element(leaf, "platform_ca", der))))
+    return out
+
+
+def reserved_name_docs(w):
+    """Documents with elements whose NAME collides with a reserved word of the format (the root word
+    `sgx_root`, its case variants, the empty name, the version-1 root word): harmless extras next to
+    a genuine chain, and whole chains genuinely signed under an in-file pseudo-root.
+    -> list of (label, doc, designated target); the root of trust is world `w`'s 'root' certificate."""
+    day = timedelta(days=1)
+    base, _, meta = w.chain(2, "wide-top")
+    nb, na = T0 - 50 * day, T0 + 50 * day
+    pseudo_self = w.cert("pseudo", "pseudo", nb, na)         # self-made root
+    pseudo_cross = w.cert("pseudo", "root", nb, na)          # the same key, certified by the real root
+    out = []
+
+    def pseudo_chain(top_signed_by):
+        return [w.quote_element("p_quote", "p_att", "p_attkey", custom=b"POWHSM:5.4::sgx" + bytes(range(112))),
+                w.att_element("p_att", "p_qe", "p_qe", key_name="p_attkey"),
+                w.x509_element("p_qe", "p_ca", w.cert("p_qe", "p_ca", nb, na)),
+                w.x509_element("p_ca", top_signed_by, w.cert("p_ca", "pseudo", nb, na))]
+
+    # 1. genuine chain + a harmless extra element named like the root word
+    extras = {
+        "self-made-root": w.x509_element(V2_ROOT, V2_ROOT, pseudo_self),
+        "copy-of-the-root": w.x509_element(V2_ROOT, V2_ROOT, meta["root_der"]),
+        "cross-signed": w.x509_element(V2_ROOT, V2_ROOT, pseudo_cross),
+        "signed-by-quote": w.x509_element(V2_ROOT, "quote", pseudo_self),
+        "signed-by-nobody": w.x509_element(V2_ROOT, "nobody", pseudo_self),
+        "attestation-key": w.att_element(V2_ROOT, "quoting_enclave", "quoting_enclave", key_name="attkey2"),
+    }
+    for k, extra in extras.items():
+        for front in (True, False):
+            d = clone(base)
+            d["elements"] = ([extra] + d["elements"]) if front else (d["elements"] + [extra])
+            out.append(("reserved:extra-named-root:" + k, d, "quote"))
+    # 2. a whole chain under an in-file pseudo-root named like the root word
+    for k in ("self-made-root", "cross-signed", "signed-by-quote", "signed-by-nobody"):
+        for front in (True, False):
+            els = pseudo_chain(V2_ROOT)
+            els = ([extras[k]] + els) if front else (els + [extras[k]])
+            out.append(("reserved:pseudo-root:" + k, {"version": 2, "targets": ["p_quote"], "elements": els},
+                        "p_quote"))
+            # ... next to the genuine chain, both as targets, both orders
+            for tl in (["quote", "p_quote"], ["p_quote", "quote"]):
+                d = clone(base)
+                d["elements"] = els + d["elements"]
+                d["targets"] = tl
+                out.append(("reserved:pseudo-root-beside-genuine:" + k, d, tl[0]))
+    # 3. the pseudo-root under names that are NOT the root word: an ordinary element, valid iff the
+    #    operator's root certified it
+    for name in ("SGX_ROOT", "Sgx_Root", "sgx_root ", "", "root", "sgx-root"):
+        for k, der in (("self-made", pseudo_self), ("cross-signed", pseudo_cross)):
+            els = pseudo_chain(name) + [w.x509_element(name, V2_ROOT, der)]
+            out.append(("reserved:near-root-name:" + k, {"version": 2, "targets": ["p_quote"], "elements": els},
+                        "p_quote"))
+    # 4. names differing only in case from a target / an element of the chain
+    for a, b in (("quote", "Quote"), ("attestation", "ATTESTATION"), ("quoting_enclave", "Quoting_Enclave")):
+        d = clone(base)
+        twin = dict(element_of(d, a), name=b)
+        if twin["type"] != "x509_pem":
+            twin["signature"] = flip(bytes.fromhex(twin["signature"]), 30, 1).hex()     # the twin is bad
+        else:
+            der = base64.b64decode(twin["message"])
+            twin["message"] = base64.b64encode(flip(der, len(der) - 9, 2)).decode()
+        for front in (True, False):
+            d2 = clone(d)
+            d2["elements"] = ([twin] + d2["elements"]) if front else (d2["elements"] + [twin])
+            out.append(("reserved:case-twin", d2, "quote"))
+            if a == "quote":
+                d3 = clone(d2)
+                d3["targets"] = ["quote", "Quote"]
+                out.append(("reserved:case-twin", d3, "quote"))
+    return out
 
 
 def clone(doc):
